@@ -106,11 +106,53 @@ def catalogue():
             "links": ["%s:%s" % l for l in links] + [":" + d for d in sorted(set(l[1] for l in links))] + [s + ":" for s in sorted(set(l[0] for l in links))],
             "progs": [(p.name, float(p.spend_data.vals[0])) for p in pg.programs.values()] if pg is not None else [],
             "ypars": list(ps.pars.keys()),
+            "total_vars": _total_vars(P, pop),
             "transfers": [("%s_from_%s" % (code, src), dst) for code, by_src in ps.transfers.items() for src, par in by_src.items() for dst in par.y_factor.keys()],
             "data": data,
         }
     _CACHE["cat"] = cat
     return cat
+
+
+AVERAGED_UNITS = ("", "fraction", "proportion", "probability", "rate")  # PlotData: population aggregation defaults to the average for these, to the sum otherwise
+
+
+def agg_kind(units):
+    """'average' | 'sum' | None (not generated: e.g. durations, where the calibrate docstring says average and PlotData sums)"""
+    u = (units or "").strip().lower()
+    if u in AVERAGED_UNITS:
+        return "average"
+    if u in ("number", "number of people"):
+        return "sum"
+    return None
+
+
+def _total_vars(P, pop):
+    """[(quantity, 'sum'|'average')] of the databook quantities that have a row for every population (a 'Total' row can be added to their table)"""
+    out = []
+    if len(P.data.pops) < 2:
+        return out
+    for q, tdve in P.data.tdve.items():
+        if not all(pn in tdve.ts for pn in P.data.pops):
+            continue
+        series = [v for v in pop.comps + pop.characs + pop.pars if v.name == q]
+        if series and agg_kind(series[0].units):
+            out.append((q, agg_kind(series[0].units)))
+    return out
+
+
+def own_total_series(model, name):
+    """documented population aggregate of a quantity: sum over the populations for numbers, (unweighted) population average for everything else"""
+    arrs, kind = [], None
+    for pop in model.pops:
+        for v in pop.comps + pop.characs + pop.pars:
+            if v.name == name:
+                arrs.append(np.asarray(v.vals, dtype=float))
+                kind = agg_kind(v.units)
+    if not arrs or kind is None:
+        raise KeyError(name)
+    tot = np.sum(arrs, axis=0)
+    return tot / len(arrs) if kind == "average" else tot
 
 
 # --------------------------------------------------------------------------- tap around Model.process
@@ -343,8 +385,11 @@ def own_cal_objective(model, data, outputs):
         ts = data.get_ts(var, pop_name)
         if ts is None or not ts.has_time_data:
             continue
-        pop = [p for p in model.pops if p.name == pop_name][0]
-        series = _pop_series(pop, var, model.dt)
+        if pop_name.lower() == "total":
+            series = [own_total_series(model, var)]  # compared with the databook's 'Total' row
+        else:
+            pop = [p for p in model.pops if p.name == pop_name][0]
+            series = _pop_series(pop, var, model.dt)
         if series is None:
             raise KeyError(var)
         dt_pts = sorted(zip([float(x) for x in ts.t], [float(x) for x in ts.vals]))
